@@ -413,7 +413,8 @@ def c18(seed, n, inproc=None):
         cases = []
         for i in range(300):
             pool = F if i % 3 else TWELVE
-            c = gen.gen_case('c18-%d-%d-%d' % (seed, k, i), 0, pool, want_fault=False)
+            # a fifth of the requests carry one invalid construct: refused under the subset exactly as in the full build
+            c = gen.gen_case('c18-%d-%d-%d' % (seed, k, i), 0, pool, want_fault=(i % 5 == 1))
             cases.append(('c18-%d-%d' % (k, i), c))
         # systematic: every shape (struct / enum / union, with and without a type-level Default expression) educing one
         # enabled trait, with an attribute of a DISABLED trait on a field or a variant: must be refused
